@@ -21,10 +21,11 @@ PROBES = {
             "no_leak_checked", "honest_recomputation_checked", "prefitted_forecaster",
             "missing_values_in_training_window", "fit_params_checked",
             "x_consuming_forecaster", "missing_values_in_test_window", "raw_metric_checked",
-            "exogenous_windows_checked", "splitter_object_reused", "windows_with_holes",
+            "exogenous_windows_checked", "splitter_object_reused", "splitter_object_reused_unchanged",
+            "gapped_time_stamps", "windows_with_holes",
             "integer_valued_series"],
     "C08": ["tie_in_best_score", "greater_is_better", "nested_param_names", "multiplexer_grid",
-            "randomized_search", "refit_false", "interleave_schedule", "pre_dispatch_window",
+            "randomized_search", "refit_false", "refit_flag_switched_on_without_fit", "grid_with_member_list", "grid_with_long_objects", "interleave_schedule", "pre_dispatch_window",
             "lockstep_history_checked", "sibling_schedule_checked", "list_of_grids",
             "random_state_instance", "tie_not_involving_first", "second_fit_other_grid",
             "fit_horizon_remembered", "prediction_intervals_checked", "undefined_candidate_score",
@@ -212,16 +213,24 @@ def generate(prop, rng, tier):
             metric = "nan_mae"
             first = (cv.get("initial") or cv["window"])
             nan_test = sorted(set(rng.randint(first, n - 1) for _ in range(rng.randint(1, 2))))
+        cv["fh_as"] = rng.choice(["list", "list", "array", "object"])
+        index = rng.choice(["range", "range", "int"])
+        if spec["kind"] == "naive" and spec.get("strategy") == "last" and spec.get("sp", 1) == 1 \
+                and spec.get("window_length") is None and not with_X and rng.random() < 0.4:
+            # integer time stamps with gaps: positions and labels are different things
+            index = rng.choice(["step2", "irregular"])
         return {
             "spec": spec, "cv": cv, "n": n,
             "series": {"seed": rng.randint(0, 10 ** 6), "origin": rng.choice([0, 0, 3, 50, -20]),
-                       "index": rng.choice(["range", "range", "int"]), "sp": rng.choice([2, 3, 4])},
+                       "index": index, "sp": rng.choice([2, 3, 4])},
             "strategy": strategy,
             "metric": metric, "nan_test": nan_test,
             "with_X": with_X, "return_data": rng.random() < 0.4,
             "prefit": rng.random() < 0.25,
             # the same splitter object, reconfigured, is used for a second evaluation
             "reuse_cv": rng.random() < 0.3,
+            # ... or used again exactly as it is (the second table equals that of a new splitter)
+            "reuse_plain": rng.random() < 0.5,
             # counts: an integer-dtype target (forecasts are not whole numbers)
             "int_values": rng.random() < 0.15,
             "fit_params": rng.random() < 0.3,
@@ -234,7 +243,7 @@ def generate(prop, rng, tier):
         }
     # ---- C08
     n = rng.randint(18, 36 if not big else 70)
-    base_kind = rng.choice(["naive", "naive", "ttf", "mux", "theta", "ttf_obj"])
+    base_kind = rng.choice(["naive", "naive", "ttf", "mux", "theta", "ttf_obj", "ens_list", "ttf_big"])
     if base_kind == "naive":
         base = {"kind": "naive", "strategy": "last", "sp": 1, "window_length": None}
         grid = {"strategy": rng.sample(["last", "mean", "drift"], rng.randint(2, 3))}
@@ -262,6 +271,20 @@ def generate(prop, rng, tier):
                 "forecaster": {"kind": "trend", "degree": 1, "with_intercept": True}}
         grid = [{"f": ["@naive"], "f__strategy": rng.sample(["last", "mean", "drift"], 2)},
                 {"f": ["@naive"], "f__strategy": ["mean"], "f__window_length": rng.sample([3, 4, 6], 2)}]
+    elif base_kind == "ens_list":
+        # the member LIST itself is a grid value (one list object, listed in both sub-grids),
+        # next to nested parameters of its members
+        base = {"kind": "ensemble", "members": [
+            {"kind": "naive", "strategy": "last", "sp": 1, "window_length": None},
+            {"kind": "trend", "degree": 1, "with_intercept": True}], "aggfunc": "mean", "n_jobs": None}
+        grid = [{"forecasters": ["@members"], "m0__strategy": rng.sample(["mean", "drift", "last"], 2)},
+                {"forecasters": ["@members"], "aggfunc": rng.sample(["mean", "median", "min"], 2)}]
+    elif base_kind == "ttf_big":
+        # long component objects that differ in one inner member only
+        base = {"kind": "ttf", "transformers": [{"kind": "deseason", "sp": 2, "model": "additive"}],
+                "forecaster": {"kind": "trend", "degree": 1, "with_intercept": True}}
+        ks = rng.sample([13, 14, 15, 16], 2)
+        grid = {"f": ["@big:%d" % ks[0], "@big:%d" % ks[1]] + (["@naive"] if rng.random() < 0.5 else [])}
     elif base_kind == "ttf":
         base = {"kind": "ttf", "transformers": [{"kind": "deseason", "sp": 2, "model": "additive"}],
                 "forecaster": {"kind": "naive", "strategy": "last", "sp": 1, "window_length": None}}
@@ -356,6 +379,8 @@ def execute_c07(scen):
     if scen.get("nan_test"):
         y.iloc[[p_ for p_ in scen["nan_test"] if p_ < len(y)]] = np.nan
         res.probe("missing_values_in_test_window")
+    if s["index"] in ("step2", "irregular"):
+        res.probe("gapped_time_stamps")
     X = _make_X(y, s["seed"] + 1) if scen["with_X"] else None
     inner = peers.XIncrementForecaster() if scen["spec"]["kind"] == "xinc" else C.build(scen["spec"])
     spy = peers.SpyForecaster(inner, tag="F")
@@ -576,11 +601,18 @@ def execute_c07(scen):
     # splitter as it is now
     if scen.get("reuse_cv") and not res.violations and hasattr(cv, "step_length"):
         try:
-            cv.step_length = cv.step_length % 3 + 1
-            old_fh = [int(x) for x in np.atleast_1d(cv.fh)]
-            cv.fh = [s_ + 1 for s_ in old_fh] if max(old_fh) + 1 + scen["cv"]["window"] < len(y) else old_fh
-            with peers.paused():
-                splits2 = [(np.asarray(tr), np.asarray(te)) for tr, te in cv.split(y)]
+            if scen.get("reuse_plain"):
+                # used again as it is: what a newly built splitter of the same arguments yields
+                res.probe("splitter_object_reused_unchanged")
+                with peers.paused():
+                    splits2 = [(np.asarray(tr), np.asarray(te))
+                               for tr, te in C.build_cv(scen["cv"]).split(y)]
+            else:
+                cv.step_length = cv.step_length % 3 + 1
+                old_fh = [int(x) for x in np.atleast_1d(cv.fh)]
+                cv.fh = [s_ + 1 for s_ in old_fh] if max(old_fh) + 1 + scen["cv"]["window"] < len(y) else old_fh
+                with peers.paused():
+                    splits2 = [(np.asarray(tr), np.asarray(te)) for tr, te in cv.split(y)]
             peers.CTX.log = []
             with sched.scenario_schedule(sched.Scheduler("fifo", 0)), patched_evaluate_clock(SimClock(9)):
                 table2 = evaluate(peers.SpyForecaster(inner, tag="F"), cv, y, X, strategy="refit",
@@ -619,22 +651,56 @@ def ForecastingHorizonAbs(index):
 # ------------------------------------------------------------------ C08
 def _mat_grid(grid):
     """The grid as the user writes it: the marker "@naive" stands for ONE NaiveForecaster
-    object that the user lists (possibly in several sub-grids)."""
-    if '"@naive"' not in json.dumps(grid):
+    object that the user lists (possibly in several sub-grids), "@members" for ONE list of
+    (name, forecaster) pairs, "@big:k" for an ensemble of 30 members of which only member k
+    differs from the others."""
+    if '"@' not in json.dumps(grid):
         return grid
+    from sktime.forecasting.compose import EnsembleForecaster
     from sktime.forecasting.naive import NaiveForecaster
+    from sktime.forecasting.trend import PolynomialTrendForecaster
     obj = NaiveForecaster()
+    members = [("m0", NaiveForecaster()), ("m1", PolynomialTrendForecaster(degree=1)),
+               ("m2", NaiveForecaster(strategy="mean", window_length=4))]
+
+    def one(x):
+        if x == "@naive":
+            return obj
+        if x == "@members":
+            return members
+        if isinstance(x, str) and x.startswith("@big:"):
+            k = int(x[5:])
+            return EnsembleForecaster([("e%d" % i, NaiveForecaster(strategy="mean", window_length=3)
+                                        if i == k else NaiveForecaster()) for i in range(30)])
+        return x
 
     def sub(v):
-        return [obj if x == "@naive" else x for x in v]
+        return [one(x) for x in v]
     if isinstance(grid, list):
         return [{k: sub(v) for k, v in g.items()} for g in grid]
     return {k: sub(v) for k, v in grid.items()}
 
 
+def _okey(v):
+    """Comparable form of a parameter value: objects by class and (deep) parameters."""
+    if hasattr(v, "get_params"):
+        return [type(v).__name__, sorted((k, _okey(x)) for k, x in v.get_params(deep=False).items())]
+    if isinstance(v, (list, tuple)):
+        return [_okey(x) for x in v]
+    return v
+
+
+def _fresh(params):
+    """A candidate with private copies of its object-valued entries (set_params writes nested
+    `name__param` settings into the very objects it is given)."""
+    from sklearn.base import clone
+    return {k: (clone(v, safe=False) if hasattr(v, "get_params") or isinstance(v, list) else v)
+            for k, v in params.items()}
+
+
 def _pkey(params):
-    """Comparable form of a candidate (estimator-valued entries by class)."""
-    return {k: (type(v).__name__ if hasattr(v, "get_params") else v) for k, v in params.items()}
+    """Comparable form of a candidate."""
+    return {k: _okey(v) for k, v in params.items()}
 
 
 def _candidates(scen):
@@ -646,7 +712,8 @@ def _candidates(scen):
         cands = list(ParameterGrid(grid))
     else:
         cands = list(ParameterSampler(grid, scen["n_iter"], random_state=_search_rs(scen)))
-    return [{k: (clone(v) if hasattr(v, "get_params") else v) for k, v in c.items()} for c in cands]
+    return [{k: (clone(v, safe=False) if hasattr(v, "get_params") or isinstance(v, list) else v)
+             for k, v in c.items()} for c in cands]
 
 
 def _search_rs(scen):
@@ -681,7 +748,7 @@ def _honest_mean(scen, params, y):
     fitted (strategy refit) or fitted once and updated (strategy update) on each fold."""
     from sklearn.base import clone
     raw = raw_metric(scen["metric"])
-    base = clone(C.build(scen["base"])).set_params(**params)
+    base = clone(C.build(scen["base"])).set_params(**_fresh(params))
     scores = []
     g = None
     for i, (tr, te) in enumerate(C.build_cv(scen["cv"]).split(y)):
@@ -705,7 +772,7 @@ def _all_undefined(scen, y):
     with peers.paused(), sched.scenario_schedule(sched.Scheduler("fifo", 0)):
         for params in _candidates(scen):
             try:
-                t = evaluate(clone(C.build(scen["base"])).set_params(**params), C.build_cv(scen["cv"]),
+                t = evaluate(clone(C.build(scen["base"])).set_params(**_fresh(params)), C.build_cv(scen["cv"]),
                              y, strategy=scen["strategy"], scoring=build_metric(scen["metric"]))
                 col = [c for c in t.columns if c.startswith("test_")][0]
                 if not np.isnan(float(t[col].mean())):
@@ -778,6 +845,10 @@ def execute_c08(scen):
         res.probe("list_of_grids")
     if '"@naive"' in json.dumps(scen["grid"]):
         res.probe("grid_with_component_objects")
+    if '"@members"' in json.dumps(scen["grid"]):
+        res.probe("grid_with_member_list")
+    if '"@big:' in json.dumps(scen["grid"]):
+        res.probe("grid_with_long_objects")
     if scen["search"] == "random" and scen.get("search_rs_kind") == "instance":
         res.probe("random_state_instance")
     if scen["base"]["kind"] == "mux":
@@ -805,7 +876,7 @@ def execute_c08(scen):
         s2 = sched.Scheduler("fifo", 0)
         with sched.scenario_schedule(s2):
             for params in cands:
-                f = clone(C.build(scen["base"])).set_params(**params)
+                f = clone(C.build(scen["base"])).set_params(**_fresh(params))
                 try:
                     t = evaluate(f, C.build_cv(scen["cv"]), y, strategy=scen["strategy"],
                                  scoring=build_metric(scen["metric"]))
@@ -933,7 +1004,7 @@ def execute_c08(scen):
                 s5 = sched.Scheduler("fifo", 0)
                 with sched.scenario_schedule(s5):
                     for i2, params in enumerate(cands2):
-                        f = clone(C.build(scen["base"])).set_params(**params)
+                        f = clone(C.build(scen["base"])).set_params(**_fresh(params))
                         try:
                             t = evaluate(f, C.build_cv(scen["cv"]), y, strategy=scen["strategy"],
                                          scoring=build_metric(m2name))
@@ -987,10 +1058,31 @@ def execute_c08(scen):
             except Exception as e:  # noqa
                 v("no_refit_wrong_error", "%s raised %s instead of NotFittedError: %s" % (
                     name, type(e).__name__, str(e)[:100]), method=name, exc=type(e).__name__)
+        if scen.get("toggle_refit") and not res.violations:
+            # the flag alone is switched on afterwards: the search was still run without a refit,
+            # no best forecaster has been fitted, and nothing may answer as if one had
+            tuner.set_params(refit=True)
+            res.probe("refit_flag_switched_on_without_fit")
+            for name, call in (("predict", lambda: tuner.predict([1, 2])),
+                               ("update", lambda: tuner.update(tail)),
+                               ("cutoff", lambda: tuner.cutoff),
+                               ("update_predict_single", lambda: tuner.update_predict_single(tail, fh=[1]))):
+                try:
+                    out_ = call()
+                    v("no_refit_method_worked", "fitted with refit=False, then set_params(refit=True) "
+                      "without a new fit: %s returned %r" % (name, out_), method=name, flag_only=True)
+                    break
+                except NotFittedError:
+                    pass
+                except Exception as e:  # noqa
+                    v("no_refit_wrong_error", "fitted with refit=False, then set_params(refit=True) "
+                      "without a new fit: %s raised %s instead of NotFittedError" % (
+                          name, type(e).__name__), method=name, exc=type(e).__name__, flag_only=True)
+                    break
         res.digest = digest.hexdigest()[:16]
         return res
     # lock-step: the tuner vs a forecaster constructed directly with the best parameters
-    direct = clone(C.build(scen["base"])).set_params(**cands[bi])
+    direct = clone(C.build(scen["base"])).set_params(**_fresh(cands[bi]))
     with peers.paused():
         direct.fit(y, fh=scen.get("fit_fh"))
     pos = 0
@@ -1146,7 +1238,7 @@ def execute_c08(scen):
                 a_ = tx.predict(fh, X=Xfut)
             with peers.paused():
                 dx = peers.XNaive(strategy=b0.strategy, window_length=b0.window_length, sp=b0.sp)
-                dx.set_params(**tx.best_params_)
+                dx.set_params(**_fresh(tx.best_params_))
                 dx.fit(y, Xtr)
                 b_ = dx.predict(fh, X=Xfut)
             res.probe("search_with_exogenous_data")
